@@ -18,6 +18,9 @@ order are *data choice points* unless stated otherwise):
         followed by crash / return / wait-for-disconnect) x client offers {none, subprotocols, permessage-deflate,
         both} x carrier {ws/h1, ws/h2} x closing order {client Close with code none/1000/1001/3000, reply to the
         server's Close, EOF, reset, RST_STREAM, none}.
+  off   offer header variants: Sec-WebSocket-Protocol {missing, one, list, two lines (both orders), odd case} x
+        Sec-WebSocket-Extensions {missing, permessage-deflate, foo, with parameter, lists, two lines} x accept
+        {plain, "chat", "superchat", unoffered} x carrier, then one text message and a client Close.
   race  Explorer A (M mid-flight injections, S preemptions, trio R): application close vs. client Close vs.
         EOF/reset as independent sources -> client first, server first, simultaneous, abrupt.
 
@@ -112,6 +115,7 @@ OFFERS = {"none": ([], False), "sub": (["chat", "superchat"], False), "ext": ([]
 MSG: Dict[str, dict] = {
     "acc": {"type": "websocket.accept"},
     "acc_sub": {"type": "websocket.accept", "subprotocol": "superchat"},
+    "acc_chat": {"type": "websocket.accept", "subprotocol": "chat"},
     "acc_bad": {"type": "websocket.accept", "subprotocol": "nope"},
     "acc_hdr": {"type": "websocket.accept", "headers": [(b"x-extra", b"1"), (b"x-two", b"2")]},
     "acc_forb": {"type": "websocket.accept", "headers": [(b"sec-websocket-protocol", b"chat")]},
@@ -129,6 +133,13 @@ MSG: Dict[str, dict] = {
     "send_b": {"type": "websocket.send", "bytes": b"\x00\x01"},
 }
 TERMINALS = ("raise", "return", "wait")
+
+# off: offer header variants (RFC 6455 11.3.2 / 11.3.4: both headers may appear several times, which "is logically
+# the same as a single header field that contains all values")
+SUBV = [None, [b"chat"], [b"chat, superchat"], [b"chat", b"superchat"], [b"superchat", b"chat"], [b"Chat"]]
+EXTV = [None, [b"permessage-deflate"], [b"foo"], [b"permessage-deflate; client_max_window_bits"],
+        [b"foo, permessage-deflate"], [b"permessage-deflate", b"foo"], [b"foo", b"permessage-deflate"]]
+OFF_ACCEPTS = ["acc", "acc_chat", "acc_sub", "acc_bad"]
 
 
 def sequences(depth: int) -> List[Tuple[str, ...]]:
@@ -281,22 +292,38 @@ def build(params: tuple, pick: Callable[[int, str], int]) -> tuple:
                                ("cmd", 0, "headers", 1, hdrs, method == b"GET"), ("eof", 0)])]
         apps = HS_APPS
     else:
-        carrier, offer, seq = params[2], params[3], params[4]
-        offered, ext = OFFERS[offer]
+        carrier = params[2]
+        sub_lines: Optional[List[bytes]] = None
+        ext_lines: Optional[List[bytes]] = None
+        if family == "off":
+            sub_lines, ext_lines = SUBV[params[3]], EXTV[params[4]]
+            offered = [t.strip().decode() for v in (sub_lines or []) for t in v.split(b",") if t.strip()]
+            ext = any(t.strip().startswith(b"permessage-deflate") for v in (ext_lines or []) for t in v.split(b","))
+            seq = (OFF_ACCEPTS[pick(len(OFF_ACCEPTS), "accept")], "send_t", "wait")
+        else:
+            offer, seq = params[3], params[4]
+            offered, ext = OFFERS[offer]
+            if offered:
+                sub_lines = [", ".join(offered).encode()]
+            if ext:
+                ext_lines = [b"permessage-deflate"]
         model = run_model(seq, offered)
         if family == "dec":
             opts = closings(seq, model, carrier)
             closing = opts[pick(len(opts), "closing")]
+        elif family == "off":
+            closing = "cc:1000" if model.state == "connected" else "none"
         else:
             closing = params[5]
-        case.update(carrier=carrier, offered=offered, ext=ext, seq=seq, closing=closing, model=model)
+        case.update(carrier=carrier, offered=offered, ext=ext, seq=seq, closing=closing, model=model,
+                    sub_lines=sub_lines, ext_lines=ext_lines)
         extra1, extra2 = [], []
-        if offered:
-            extra1.append((b"Sec-WebSocket-Protocol", ", ".join(offered).encode()))
-            extra2.append((b"sec-websocket-protocol", ", ".join(offered).encode()))
-        if ext:
-            extra1.append((b"Sec-WebSocket-Extensions", b"permessage-deflate"))
-            extra2.append((b"sec-websocket-extensions", b"permessage-deflate"))
+        for v in (sub_lines or []):
+            extra1.append((b"Sec-WebSocket-Protocol", v))
+            extra2.append((b"sec-websocket-protocol", v))
+        for v in (ext_lines or []):
+            extra1.append((b"Sec-WebSocket-Extensions", v))
+            extra2.append((b"sec-websocket-extensions", v))
         own_code = None
         for op in seq:
             if op in ("close", "close_c") and model.state == "closed":
@@ -331,7 +358,7 @@ def build(params: tuple, pick: Callable[[int, str], int]) -> tuple:
                 return guard + [("cmd", 0, "rst", 1, 8)]
             return []
 
-        if family == "dec":
+        if family in ("dec", "off"):
             sources = [("client", client + closing_events(closing))]
             apps = {"websocket": program(seq)}
         else:  # race: the application's close is gated, the closing events are independent sources
@@ -364,6 +391,9 @@ def scenarios(tier: str) -> List[Any]:
                     if tier == "quick" and offer in ("ext", "sub+ext") and len(seq) > 3:
                         continue
                     out.append(("dec", e, carrier, offer, seq))
+            for si in range(len(SUBV)):
+                for ei in range(len(EXTV)):
+                    out.append(("off", e, carrier, si, ei))
             races = [(("acc", "close", "wait"), "cc:1001"), (("acc", "close_c", "wait"), "cc:none"),
                      (("acc", "close", "wait"), "eof"), (("acc", "wait"), "cc:1001+eof"),
                      (("acc", "wait"), "cc:3000+reset"), (("acc", "send_t", "close", "wait"), "cc:1000+eof")]
@@ -504,7 +534,9 @@ def oracle(w: Any, params: Any, case: dict) -> List[dict]:
     tag = carrier
     for site, detail in sorted(sites.items()):
         out.append(V("internal-error", f"{carrier}:{site}", detail))
-    if cl.error is not None:
+    d0 = model.decision
+    cut_short = d0 is not None and d0[0] == "response" and not d0[4]  # application stopped mid-response: the
+    if cl.error is not None and not cut_short:                       # client rightly sees a truncated message
         out.append(V("client-parse", f"{carrier}:{cl.error.split(':')[0]}", cl.error))
     if len(ws_insts) != 1 or http_insts:
         out.append(V("valid-handshake-not-upgraded", f"{carrier}:valid:instances={len(w.instances)}", ""))
@@ -519,17 +551,19 @@ def oracle(w: Any, params: Any, case: dict) -> List[dict]:
                 out.append(V("subprotocol-not-offered", f"{carrier}:{s.decode('latin1')}", f"offered {offered!r}"))
     crashed = ":crashed" if sites else ""
     if d is None and not model.undefined:
-        if seq[-1] in ("raise", "return") and family == "dec":
+        if seq[-1] in ("raise", "return") and family != "race":
             if status not in (None, 500) or (status is None and carrier == "ws/h1" and rec.closed_at is None):
                 out.append(V("no-decision-rendering", f"{carrier}{crashed}:status={status}", seq))
         elif status is not None:
             out.append(V("no-decision-rendering", f"{carrier}{crashed}:status={status}", seq))
     elif d is not None and d[0] == "accept":
         if resp is None:
-            out.append(V("accept-rendering", f"{carrier}{crashed}:no-response", seq))
+            lines = case.get("sub_lines")
+            why = f":subprotocol-offered-over-{len(lines)}-header-lines" if d[1] is not None and lines and len(lines) > 1 else ""
+            out.append(V("accept-rendering", f"{carrier}{crashed}:no-response{why}", f"seq={seq} offered={offered!r}"))
         else:
             out += _accept_checks(resp, carrier, case["keys"], d[1], d[2], offered, case["ext"], carrier + crashed)
-            if not model.undefined and wsp is not None and family == "dec":
+            if not model.undefined and wsp is not None and family != "race":
                 exp_msgs = [x for x in model.wire if x[0] != "close"]
                 if list(wsp.messages) != exp_msgs:
                     out.append(V("accept-rendering", f"{carrier}{crashed}:messages",
@@ -577,7 +611,7 @@ def oracle(w: Any, params: Any, case: dict) -> List[dict]:
                 cs = set(own)
             env_codes.append(cs)
         mid = any(p.kind == "mid" and p.choice for p in w.chooser.trace)
-        if family == "dec":
+        if family != "race":
             # the application's own close (if any) precedes every client event; otherwise the client's event decides
             allowed = own if own else (env_codes[0] if env_codes else set())
             first = closing if not own else "own-close"
